@@ -57,6 +57,9 @@ def plan(tier, seed):
                             {"mode": "lab", "costs": [(0, 2, 2, 1, 2), (0, 1, 2, 1, 1)]})
         for osh, ssh in spaces.shape_pairs(4, 3):
             out.append({"slice": "single-family:P4x3", "mode": "single", "osh": osh, "ssh": ssh, "costs": core[:4] + [core[7]] + cheap_hgt + uneven})
+        # operation histories: one plain input object per leaf assignment, its unit costs edited in place between solves
+        for osh, ssh in spaces.shape_pairs(3, 3, min_obj=2):
+            out.append({"slice": "plain-history:P3x3", "mode": "history", "osh": osh, "ssh": ssh, "session": True})
         # unit costs ten orders of magnitude apart (candidates a few losses apart must not count as tied)
         for osh, ssh in spaces.shape_pairs(3, 3):
             out.append({"slice": "single-family:P3x3/huge", "mode": "single", "osh": osh, "ssh": ssh,
@@ -82,7 +85,7 @@ def plan(tier, seed):
     for osh, ssh in spaces.shape_pairs(5, 3, min_obj=5):
         out.append({"slice": "single-family:P5x3", "mode": "single", "osh": osh, "ssh": ssh, "costs": core[:3] + [core[7]] + cheap_hgt[:2]})
     # the quick slices that the larger ones above do not subsume
-    keep = ("single-family:P3x3/huge", "labelled:O4x3x{a,b}/hgt2", "labelled:O4chainx1x3s", "plain:P3x6", "single-family:P5x3/thl=superdtl")
+    keep = ("plain-history:P3x3", "single-family:P3x3/huge", "labelled:O4x3x{a,b}/hgt2", "labelled:O4chainx1x3s", "plain:P3x6", "single-family:P5x3/thl=superdtl")
     out = [sh for sh in plan("quick", seed) if sh["slice"] in keep] + out      # cheap ones first
     return out
 
@@ -147,12 +150,56 @@ def check(O, S, leafmap, leafsyn, costs, single, plain_only=False):
     return None, strict
 
 
+HISTORY = [(0, 1, 1, 1, 1), (0, 1, 5, 1, 1), (0, 1, INF, 1, 1), (0, 2, 1, 1, 1), (0, 1, INF, 1, 1)]
+
+
+def check_history(O, S, leafmap):
+    """ONE plain input object; its unit costs are edited in place through HISTORY (cheap transfer first, then dear, then
+    forbidden, ...); after every edit thl <= lca, with equality when transfers are forbidden, under both policies, and the
+    values must be those a fresh input gives.  -> (bad, strict)"""
+    inp, _, _ = A.build_input(O, S, leafmap, HISTORY[0])
+    strict = False
+    for step, costs in enumerate(HISTORY):
+        inp.costs.update(A.cost_dict(costs))
+        fresh, _, _ = A.build_input(O, S, leafmap, costs)
+        try:
+            lca_c = A.impl_cost(reconcile_lca(inp).cost())
+            for policy in ("ANY", "ALL"):
+                got = {A.impl_cost(o.cost()) for o in reconcile_thl(inp, A.POLICY[policy])}
+                want = {A.impl_cost(o.cost()) for o in reconcile_thl(fresh, A.POLICY[policy])}
+                if len(got) != 1 or got != want:
+                    return ("history", f"step {step}, costs {A.costs_to_json(costs)} set in place on one input object, thl/{policy} "
+                                       f"returns costs {sorted(got, key=str)}; a fresh input gives {sorted(want, key=str)}"), strict
+                c = next(iter(got))
+                if not c <= lca_c or (costs[2] == INF and c != lca_c):
+                    return ("history", f"step {step}, costs {A.costs_to_json(costs)} set in place: thl/{policy} = {c}, lca = {lca_c}"), strict
+                strict = strict or c < lca_c
+        except Exception as exc:
+            return ("exception", f"step {step}: {type(exc).__name__}: {exc}\n{traceback.format_exc(limit=5)}"), strict
+    return None, strict
+
+
 def run_shard(shard, tier, seed):
     osh, ssh = shard["osh"], shard["ssh"]
     O, S = T(osh), T(ssh)
     n_eval = n_inputs = nt = vtotal = 0
     viols = []
     samples = []
+    if shard["mode"] == "history":
+        for leafmap in spaces.assignments(O, S):
+            n_inputs += 1
+            n_eval += len(HISTORY)
+            bad, strict = check_history(O, S, leafmap)
+            nt += 1 if strict else 0
+            case = dict(L.case_json(osh, ssh, leafmap, {}, HISTORY[0]), history=True)
+            if bad:
+                vtotal += 1
+                if len(viols) < 4 and not any(v["subcheck"] == bad[0] for v in viols):
+                    viols.append({"property": PROP, "subcheck": bad[0], "case": case, "detail": bad[1]})
+            if not samples:
+                samples.append(case)
+        return {"evaluations": n_eval, "inputs": n_inputs, "nontrivial": nt, "samples": samples, "violations": viols,
+                "violations_total": vtotal, "counters": {"history_steps": n_eval}}
     if shard["mode"] == "lab":
         gen = ((lm, ls) for lm, ls in L.labelled_inputs(O, S, shard["menu"], shard.get("part")) if ordered.root_orders(ls))
         single = False
@@ -181,5 +228,8 @@ def run_shard(shard, tier, seed):
 def replay(v):
     case = v["case"]
     osh, ssh, O, S, leafmap, leafsyn, costs, rootsyn = L.case_from_json(case)
+    if case.get("history"):
+        bad, _ = check_history(O, S, leafmap)
+        return {"violated": bool(bad), "detail": (bad[0] + ": " + bad[1]) if bad else None}
     bad, _ = check(O, S, leafmap, leafsyn, costs, case.get("single_family", False), case.get("plain_only", False))
     return {"violated": bool(bad), "detail": (bad[0] + ": " + bad[1]) if bad else None}
